@@ -67,7 +67,7 @@ PROPS["C08"] = dict(
     level_note="Trusted: Coq kernel+VM, rs2v printer, Rust/Script.v action classification, mutual exclusion "
                "of Mutex, Condvar wakes every waiter on notify_all and has no lost wake-ups, FIFO of "
                "crossbeam channels; callers hold no AssetReadGuard (documented precondition of hot_reload).",
-    gen=["HotReloading", "Deps"],
+    gen=["HotReloading", "Deps", "Private"],
     model_files=["Rust/Ast.v", "Rust/Syntax.v", "Rust/Script.v", "Ref/Answers.v"],
     model_targets=["Ref/Answers.vo", "Rust/Script.vo"],
     proof_files=["Proofs/AnsInv.v", "Proofs/AnsR.v", "Proofs/AnsC.v", "Proofs/Dfs.v", "Witness/OldD1.v",
